@@ -29,8 +29,6 @@ let () = main_loop (fun w -> match w with
     let d = mk_devs mask in
     let r = ref_run_dev (mk_cfg mh mb tolws tollim) d (bytes_of_hex s) in
     if r = [] then "-" else String.concat " ; " (List.map (outcome_str d) r)
-  | ["expects"; mh; mb; tolws; tollim; mask; s] ->
-    b2s (first_expects (mk_cfg mh mb tolws tollim) (mk_devs mask) (bytes_of_hex s))
   | ["chunked"; mask; s] ->
     (match ref_chunked (mk_devs mask) (bytes_of_hex s) with
      | ChDone (b, r) -> "done " ^ hex_of_bytes b ^ " " ^ string_of_int (List.length r)
